@@ -248,8 +248,26 @@ func finishCheck(o checkOpts, results []*funcResult, e *Engine, problems []strin
 			viols = append(viols, &violation{Obligation: n, Reason: "claimed obligation was not generated (function, loop or call anchor no longer matches)", Property: o.prop})
 		}
 	}
-	for _, s := range specErrs {
-		viols = append(viols, &violation{Obligation: "spec:" + trunc(s, 120), Reason: "contract could not be bound/evaluated on the current tree: " + s, Property: o.prop})
+	// contract clauses that cannot be bound or evaluated on the current tree (renamed parameter, vanished field or
+	// function, changed signature): one violation per function, listing the clauses
+	{
+		byFn := map[string][]string{}
+		var order []string
+		for _, s := range specErrs {
+			fn := s
+			if k := strings.Index(s, ": "); k > 0 {
+				fn = s[:k]
+			}
+			if _, ok := byFn[fn]; !ok {
+				order = append(order, fn)
+			}
+			byFn[fn] = append(byFn[fn], s)
+		}
+		for _, fn := range order {
+			list := byFn[fn]
+			reason := fmt.Sprintf("%d contract clause(s) could not be bound/evaluated on the current tree (the proof cannot be upheld): %s", len(list), trunc(strings.Join(list, " | "), 1500))
+			viols = append(viols, &violation{Obligation: "spec:" + trunc(fn, 120), Reason: reason, Property: o.prop})
+		}
 	}
 	sort.Slice(viols, func(i, j int) bool { return viols[i].Obligation < viols[j].Obligation })
 
@@ -261,7 +279,7 @@ func finishCheck(o checkOpts, results []*funcResult, e *Engine, problems []strin
 		if _, un := ent.Unclaimed[ob.group()]; un {
 			continue
 		}
-		if ob.Result != "sat" && ob.Kind != "ensures" {
+		if ob.Result != "sat" && ob.Kind != "ensures" && !safetyKinds[ob.Kind] {
 			continue
 		}
 		v := &violation{Obligation: ob.Name, Reason: "new obligation fails and its failure replays on the real code", Pos: ob.Pos, Solver: ob.Solver, Status: ob.Result, Output: trunc(ob.Output, 4000), SmtFile: ob.SmtFile, Function: ob.Fn, Property: o.prop}
